@@ -114,7 +114,7 @@ for pid in IMPLEMENTED:
 
 manifest = {
     "version": 1,
-    "setup_cmd": "cd /verif/harness && CARGO_NET_OFFLINE=true cargo build --release --offline && cd /repo && CARGO_NET_OFFLINE=true CARGO_TARGET_DIR=/verif/.build/repo cargo build --release --offline -p blots",
+    "setup_cmd": "cd /verif/harness && CARGO_NET_OFFLINE=true CARGO_TARGET_DIR=/verif/.build/harness cargo build --release --offline && cd /repo && CARGO_NET_OFFLINE=true CARGO_TARGET_DIR=/verif/.build/repo cargo build --release --offline -p blots",
     "hooks": {
         "guard": "cargo feature verif-hooks (blots-core, blots-wasm; default off)",
         "enable": "the harness crate depends on blots-core with features=[\"verif-hooks\"] and #[path]-includes blots-wasm/src/lib.rs with its own feature of the same name; the release CLI used by CLI-level checks is built with the guard off",
